@@ -43,7 +43,9 @@ HopByHop == {"Connection", "Keep-Alive", "Proxy-Connection", "Te", "Trailer", "T
 L(k, v, sp) == [k |-> k, v |-> v, sp |-> sp]
 
 \* (an empty first value makes Header.Get return "" although the name is present - and a later line may carry the payload)
-SpoofLines == << L(JA3K, "", "canon"), L(JA3K, "evil3", "canon"), L(JA3K, "evil3b", "lower"), L(JA3K, "evil3c", "upper"),
+\* (a client may also name a fingerprint header in Connection, which makes it hop-by-hop for that request: the proxy drops the client's
+\* line - and still sends its own value, which it computes after the hop-by-hop removal)
+SpoofLines == << L("Connection", "x-ja3-fingerprint", "canon"), L("Connection", "keep-alive, X-JA4-Fingerprint", "lower"), L(JA3K, "", "canon"), L(JA3K, "evil3", "canon"), L(JA3K, "evil3b", "lower"), L(JA3K, "evil3c", "upper"),
                  L(JA4K, "evil4", "canon"), L(H2K, "", "canon"), L(H2K, "evilh2", "lower"), L(CUSK, "evilc", "canon") >>
 FwdLines   == << L(XFF, "9.9.9.9", "canon"), L(XFF, "8.8.8.8, 7.7.7.7", "lower"), L(XFP, "gopher", "canon"),
                  L(XFH, "evil.example", "canon"), L(FWD, "for=1.2.3.4;proto=gopher", "canon") >>
@@ -160,7 +162,11 @@ IsProbe == /\ Len(req.ua) > 0
               \/ req.proto = "h1" /\ req.ua[1] = " kube-probe/1.26"
 
 \* names listed in Connection are hop-by-hop for this request
-ConnListed == IF \E n \in 1..Len(InH) : InH[n] = <<"Connection", "x-hop">> THEN {"X-Hop"} ELSE {}
+ConnTokens(v) == CASE v = "x-hop" -> {"X-Hop"}
+                   [] v = "x-ja3-fingerprint" -> {JA3K}
+                   [] v = "keep-alive, X-JA4-Fingerprint" -> {"Keep-Alive", JA4K}
+                   [] OTHER -> {}
+ConnListed == UNION { ConnTokens(InH[n][2]) : n \in { m \in 1..Len(InH) : InH[m][1] = "Connection" } }
 
 \* ---------------------------------------------------------------- pipeline
 Init == /\ req \in Scenarios
@@ -254,6 +260,6 @@ ProbeXor == (Done /\ ~rejected) => /\ local # forwarded
 EndToEnd == { k \in Keys(InH) : k \notin HopByHop /\ k \notin ConnListed /\ k \notin {XFF, XFH, XFP, FWD}
                                  /\ k \notin { Injectors[n] : n \in 1..Len(Injectors) } }
 HeadersKept == Fwd => /\ \A k \in EndToEnd : Values(outH, k) = Values(InH, k)
-                      /\ \A k \in (HopByHop \ {"Te"}) \cup ConnListed : Values(outH, k) = <<>>
+                      /\ \A k \in ((HopByHop \ {"Te"}) \cup ConnListed) \ { Injectors[n] : n \in 1..Len(Injectors) } : Values(outH, k) = <<>>
 HostRule == Fwd => outHost = IF req.preserveHost THEN req.host ELSE "BACKEND"
 =============================================================================
